@@ -81,6 +81,13 @@ func (m *Mutex) Unlock() {
 	}
 	m.held = false
 	sched.HBWrite(m, opUnlock, 0)
+	afterRelease()
+}
+
+func afterRelease() {
+	if e := sched.Cur(); e != nil && e.Opts.AfterRelease && !e.Aborted() {
+		sched.Point("after-release", nil)
+	}
 }
 
 func (m *Mutex) TryLock() bool {
@@ -110,6 +117,7 @@ func (m *RWMutex) Unlock() {
 	sched.Point("RW.Unlock", nil)
 	m.w = false
 	sched.HBWrite(m, opUnlock, 0)
+	afterRelease()
 }
 func (m *RWMutex) TryLock() bool {
 	sched.Point("RW.TryLock", nil)
@@ -131,6 +139,7 @@ func (m *RWMutex) RUnlock() {
 	sched.Point("RW.RUnlock", nil)
 	m.readers--
 	sched.HBWrite(m, opRUnlock, 0)
+	afterRelease()
 }
 func (m *RWMutex) TryRLock() bool {
 	sched.Point("RW.TryRLock", nil)
